@@ -212,3 +212,34 @@ Proof. destruct r; cbn; intros H; try discriminate. eauto. Qed.
 Lemma bind_err_inv {E A B} (r : res E A) (f : A -> res E B) (e : E) :
   bind r f = Err e -> r = Err e \/ exists a, r = Ok a /\ f a = Err e.
 Proof. destruct r; cbn; intros H; try discriminate; [eauto | left; congruence]. Qed.
+
+(* ---------------------------------------------------------------- "returns normally, and then Q" *)
+
+Definition post {E A} (r : res E A) (Q : A -> Prop) : Prop :=
+  match r with Ok a => Q a | Err _ => True | Panic => False | Fuel => False end.
+
+Lemma post_bind {E A B} (r : res E A) (f : A -> res E B) (Q1 : A -> Prop) (Q2 : B -> Prop) :
+  post r Q1 -> (forall a, r = Ok a -> Q1 a -> post (f a) Q2) -> post (bind r f) Q2.
+Proof. destruct r; cbn; auto. Qed.
+
+Lemma post_weaken {E A} (r : res E A) (Q1 Q2 : A -> Prop) :
+  post r Q1 -> (forall a, Q1 a -> Q2 a) -> post r Q2.
+Proof. destruct r; cbn; auto. Qed.
+
+Lemma post_ok_inv {E A} (r : res E A) (Q : A -> Prop) a : post r Q -> r = Ok a -> Q a.
+Proof. intros H ->. exact H. Qed.
+
+Section PostPrims.
+  Context {E : Type}.
+  Lemma post_idx (l : bytes) i : i < length l -> post (@idx E l i) (fun b => nth_error l i = Some b).
+  Proof. intros H. destruct (idx_ok (E:=E) l i H) as [b [-> Hb]]. exact Hb. Qed.
+  Lemma post_slice (l : bytes) lo hi :
+    lo <= hi -> hi <= length l -> post (@slice E l lo hi) (fun s => s = firstn (hi - lo) (skipn lo l)).
+  Proof. intros. rewrite slice_ok by lia. reflexivity. Qed.
+  Lemma post_tail_from (l : bytes) lo : lo <= length l -> post (@tail_from E l lo) (fun s => s = skipn lo l).
+  Proof. intros. rewrite tail_from_ok by lia. reflexivity. Qed.
+  Lemma post_usub a b : b <= a -> post (@usub E a b) (fun x => x = a - b).
+  Proof. intros. rewrite usub_ok by lia. reflexivity. Qed.
+  Lemma post_be_dec_exact n (l : bytes) : length l = n -> post (@be_dec_exact E n l) (fun x => x = be_dec l).
+  Proof. intros. rewrite be_dec_exact_ok by assumption. reflexivity. Qed.
+End PostPrims.
